@@ -303,6 +303,12 @@ def check_tree_type(col: Collector, rule: str, repo: Repo):
             "declared tree_type and drop the conversion on push_back", gt.loc)
     col.add(rule, gt.short, "scalar-column-is-tree_type", len(sca) == 1 and src(sca[0].value) == "rep.cpp_type().tree_type", f"{[src(r.value) for r in sca]}", gt.loc)
     tt = repo.find_class("terminal").methods.get("tree_type")
-    s = src(tt.node)
-    col.add(rule, "terminal.tree_type", "declared-tree-type-wins-else-self", "self if self._tree_type is None else terminal(self._tree_type" in s.replace("\n", " ").replace("  ", ""), "", tt.loc)
+    from sa.core.paths import outcomes
+    outs = outcomes(tt.node)
+    ok = len(outs) == 2 and all(o.kind == "return" for o in outs) \
+        and [o.text for o in outs if o.under(("self._tree_type is None", True))] == ["self"] \
+        and all(isinstance(o.value, ast.Call) and call_name(o.value) == "terminal" and src(o.value.args[0]) == "self._tree_type"
+                for o in outs if o.under(("self._tree_type is None", False)))
+    col.add(rule, "terminal.tree_type", "declared-tree-type-wins-else-self", ok,
+            "no declared tree type -> the type itself; otherwise terminal(<declared tree type>, ...)", tt.loc)
 
